@@ -557,6 +557,12 @@ func failureReturn(fn *ssa.Function, ret *ssa.Return) bool {
 			return true
 		}
 	}
+	// a package-level error value (errs.ErrNotFound)
+	if u, ok := v.(*ssa.UnOp); ok && u.Op == token.MUL {
+		if _, isG := u.X.(*ssa.Global); isG {
+			return true
+		}
+	}
 	return anyGuard(ret.Block(), func(c ssa.Value, pol bool) bool {
 		x, neq, isNil := errCmpNil(c)
 		return isNil && neq == pol && x == v
